@@ -158,6 +158,7 @@ type vfCliCmd struct {
 	Code int    `json:"code"`
 	Lm   string `json:"lm"`
 	St   bool   `json:"strict"`
+	Kind string `json:"kind"`
 }
 
 type vfCli struct {
@@ -400,6 +401,24 @@ func (d *vfCli) do(cmd vfCliCmd) bool {
 		d.emit(map[string]any{"e": "p_settings", "c": c.idx, "max": cmd.Max})
 		c.tc.writeSettings(Setting{SettingMaxConcurrentStreams, uint32(cmd.Max)})
 		c.maxc = cmd.Max
+	case "settings_other": // a SETTINGS frame that does not carry MAX_CONCURRENT_STREAMS
+		c := d.conn(cmd.C)
+		if c == nil || !c.live() || c.maxc < 0 {
+			return false
+		}
+		var set []Setting
+		switch cmd.Kind {
+		case "mfs":
+			set = []Setting{{SettingMaxFrameSize, 32768}}
+		case "iws":
+			set = []Setting{{SettingInitialWindowSize, 1 << 20}}
+		case "hts":
+			set = []Setting{{SettingHeaderTableSize, 2048}}
+		default:
+			cmd.Kind = "empty"
+		}
+		d.emit(map[string]any{"e": "p_settings_other", "c": c.idx, "kind": cmd.Kind})
+		c.tc.writeSettings(set...)
 	case "resp":
 		r := d.req(cmd.R)
 		if r == nil || !r.open || r.respSent || !r.conn.live() {
@@ -693,6 +712,7 @@ func vfCliSeeded(d *vfCli, rnd *rand.Rand, mix string, nops int) {
 	isOpen := func(r *vfCliReq) bool { return r.open }
 	lms := []string{"zero", "max", "at", "below", "top"}
 	codes := []int{0, 0, 2, 11}
+	kinds := []string{"empty", "mfs", "iws", "hts"}
 	for k := 0; k < nops; k++ {
 		x := rnd.Intn(100)
 		var cmd vfCliCmd
@@ -706,8 +726,10 @@ func vfCliSeeded(d *vfCli, rnd *rand.Rand, mix string, nops int) {
 				cmd = vfCliCmd{E: "data", R: pickReq(isOpen), Es: rnd.Intn(3) != 0}
 			case x < 46:
 				cmd = vfCliCmd{E: "srst", R: pickReq(isOpen), Code: []int{8, 7, 7, 2}[rnd.Intn(4)]}
-			case x < 51:
+			case x < 49:
 				cmd = vfCliCmd{E: "settings", C: pickConn(anyConn), Max: 1 + rnd.Intn(3)}
+			case x < 51:
+				cmd = vfCliCmd{E: "settings_other", C: pickConn(anyConn), Kind: kinds[rnd.Intn(len(kinds))]}
 			case x < 56:
 				cmd = vfCliCmd{E: "cancel", R: pickReq(func(r *vfCliReq) bool { return r.rt != nil })}
 			case x < 59:
@@ -743,8 +765,10 @@ func vfCliSeeded(d *vfCli, rnd *rand.Rand, mix string, nops int) {
 				cmd = vfCliCmd{E: "data", R: pickReq(isOpen), Es: rnd.Intn(3) != 0}
 			case x < 53:
 				cmd = vfCliCmd{E: "srst", R: pickReq(isOpen), Code: []int{8, 7, 2, 1}[rnd.Intn(4)]}
-			case x < 67:
+			case x < 63:
 				cmd = vfCliCmd{E: "settings", C: pickConn(anyConn), Max: 1 + rnd.Intn(3)}
+			case x < 67:
+				cmd = vfCliCmd{E: "settings_other", C: pickConn(anyConn), Kind: kinds[rnd.Intn(len(kinds))]}
 			case x < 79:
 				cmd = vfCliCmd{E: "cancel", R: pickReq(func(r *vfCliReq) bool { return r.rt != nil })}
 			case x < 83:
@@ -908,6 +932,12 @@ func vfCliFixed() [][]vfCliCmd {
 		{{St: true}, {E: "start"}, {E: "settings", C: 1, Max: 3}, {E: "start"}, {E: "start"},
 			{E: "settings", C: 1, Max: 1}, {E: "start"}, {E: "resp", R: 1, Es: true}, {E: "resp", R: 2, Es: true},
 			{E: "resp", R: 3, Es: true}, {E: "start"}, {E: "settings", C: 1, Max: 2}, {E: "resp", R: 4, Es: true}},
+		// limit 2, then a SETTINGS frame without MAX_CONCURRENT_STREAMS (the limit stays 2): the third
+		// request queues (strict) / goes to another connection (non-strict)
+		{{St: true}, {E: "start"}, {E: "settings", C: 1, Max: 2}, {E: "settings_other", C: 1, Kind: "mfs"},
+			{E: "start"}, {E: "start"}, {E: "settings_other", C: 1, Kind: "empty"}, {E: "resp", R: 1, Es: true}},
+		{{St: false}, {E: "start"}, {E: "settings", C: 1, Max: 2}, {E: "settings_other", C: 1, Kind: "iws"},
+			{E: "start"}, {E: "settings_other", C: 1, Kind: "hts"}, {E: "start"}},
 		// one-shot body, HEADERS and the first half of the DATA are out, graceful GOAWAY below the
 		// stream: the request may only be re-sent if the new attempt carries the whole body
 		{{St: false}, {E: "start"}, {E: "start", Body: "gonce"}, {E: "bwrite", R: 2},
